@@ -310,6 +310,81 @@ Theorem smart_redirect_regression pick ar ap : sound pick ->
 Proof. intro Hs. exact (smart_redirect_served pick Hs ar ap). Qed.
 Print Assumptions smart_redirect_regression.
 
+(* ------------------------------------- Handle: the wildPath regexp on the pattern text *)
+
+(* what Handle computes from the TEXT of a well-formed pattern (regexp match + ReplaceAllString)
+   is what the structured model uses: chi is given chi_render p, the wildcard table the
+   catch-all's name, and a pattern without a catch-all is left alone — all patterns of any
+   length over literals, {name} and a trailing {*name} *)
+Theorem handle_rewrite_render p : wf_pattern p = true ->
+  rewrite_pattern (goa_render p) = (chi_render p, catchall_name p).
+Proof. exact (rewrite_pattern_render p). Qed.
+Print Assumptions handle_rewrite_render.
+
+(* ... so the wildcard table Handle builds is a function of the pattern text *)
+Theorem handle_table_from_text me p h m : wf_pattern p = true ->
+  wild (handle me p h m) =
+    match rewrite_pattern (goa_render p) with
+    | (cp, Some n) => (me, cp, n) :: wild m
+    | (_, None) => wild m
+    end.
+Proof. intro H. rewrite (rewrite_pattern_render p H). reflexivity. Qed.
+Print Assumptions handle_table_from_text.
+
+(* for ANY text: a captured wildcard name obeys the documented grammar [a-zA-Z0-9_]+ ... *)
+Theorem wildcard_name_grammar s n : find_wild s = Some n -> name_ok n = true.
+Proof. exact (find_wild_name_ok s n). Qed.
+Print Assumptions wildcard_name_grammar.
+
+(* ... and a text the regexp does not match is registered unchanged, with no table entry *)
+Theorem rewrite_no_match s : find_wild s = None -> rewrite_pattern s = (s, None).
+Proof. exact (rewrite_pattern_no_match s). Qed.
+Print Assumptions rewrite_no_match.
+
+(* non-vacuity and the behaviour outside the envelope: "/a/{*x}/b/{*y}" -> "/a/*/b/*" with
+   name x (every match replaced, the first name kept); "/a/{*x-y}" is not a catch-all *)
+Example rewrite_examples :
+  rewrite_pattern [x2f;x61;x2f;x7b;x2a;x78;x7d;x2f;x62;x2f;x7b;x2a;x79;x7d]
+    = ([x2f;x61;x2f;x2a;x2f;x62;x2f;x2a], Some [x78]) /\
+  rewrite_pattern [x2f;x61;x2f;x7b;x2a;x78;x2d;x79;x7d] = ([x2f;x61;x2f;x7b;x2a;x78;x2d;x79;x7d], None) /\
+  rewrite_pattern (goa_render (pat_of ex_ip)) = (chi_render (pat_of ex_ip), Some b_p).
+Proof. vm_compute. repeat split. Qed.
+
+(* ------------------------------------------------- chi's precedence, modelled *)
+
+(* chi_pick (static edge first, then {name}, then the catch-all, with backtracking) only ever
+   returns a registered candidate whose pattern matches the routed segments ... *)
+Theorem chi_pick_sound segs cs r : chi_pick segs cs = Some r ->
+  In r cs /\ is_some (matches (r_pat r) segs) = true.
+Proof. exact (chi_pick_in segs cs r). Qed.
+Print Assumptions chi_pick_sound.
+
+(* ... and always finds one when some candidate matches (the search is complete: no request
+   that a registered route matches is answered 404 because of the search order) *)
+Theorem chi_pick_complete segs cs r : In r cs -> is_some (matches (r_pat r) segs) = true ->
+  chi_pick segs cs <> None.
+Proof. exact (Lemmas.chi_pick_complete segs cs r). Qed.
+Print Assumptions chi_pick_complete.
+
+(* hence chi's precedence is an instance of the `sound pick` every theorem above quantifies
+   over, and on the matching set of a request it is chi_pick itself *)
+Theorem chi_precedence_is_sound_pick :
+  sound chi_pick_total /\
+  forall m me segs, chi_pick_total segs (cands m me segs) = chi_pick segs (cands m me segs).
+Proof. exact (conj chi_pick_total_sound chi_pick_total_on_cands). Qed.
+Print Assumptions chi_precedence_is_sound_pick.
+
+(* non-vacuity: "/u/{id}" (#0), "/u/me" (#1), "/u/{*p}" (#2) all match /u/me: the literal wins;
+   /u/x goes to {id}; /u/x/y only the catch-all matches *)
+Example chi_precedence_example :
+  let r0 := {| r_meth := GET; r_pat := [Lit b_u; Var b_id]; r_h := 0 |} in
+  let r1 := {| r_meth := GET; r_pat := [Lit b_u; Lit [x6d; x65]]; r_h := 1 |} in
+  let r2 := {| r_meth := GET; r_pat := [Lit b_u; CatchAll b_p]; r_h := 2 |} in
+  chi_pick [b_u; [x6d; x65]] [r0; r1; r2] = Some r1 /\
+  chi_pick [b_u; [x78]] [r0; r2] = Some r0 /\
+  chi_pick [b_u; [x78]; [x79]] [r2] = Some r2.
+Proof. vm_compute. repeat split. Qed.
+
 (* ------------------------------------------------------- the not-found body *)
 
 (* the 404 body is the well-formed fault unless the text encoder was negotiated *)
